@@ -450,6 +450,94 @@ impl Ctx {
         self.universes.lock().unwrap().push((name.to_owned(), stat));
     }
 
+    /// Child mode (a second build of the same checker run by the parent): print counts, universes and violations in a
+    /// line protocol and exit 0; the parent merges them with [`Ctx::merge_child`].
+    pub fn finish_as_child(self) -> ! {
+        use std::io::Write;
+        let out = std::io::stdout();
+        let mut o = out.lock();
+        let _ = writeln!(
+            o,
+            "CHILD-COUNTS\t{}\t{}\t{}\t{}\t{}",
+            self.evals.load(Ordering::Relaxed),
+            self.transitions.load(Ordering::Relaxed),
+            self.states.load(Ordering::Relaxed),
+            self.nontrivial.load(Ordering::Relaxed),
+            self.traces.load(Ordering::Relaxed)
+        );
+        for (name, u) in self.universes.lock().unwrap().iter() {
+            let _ = writeln!(o, "CHILD-UNIVERSE\t{name}\t{}\t{}\t{}\t{}", u.total, u.done, u.capped, esc_line(&u.note));
+        }
+        for v in self.violations.lock().unwrap().iter() {
+            let _ = writeln!(o, "CHILD-VIOLATION\t{}\t{}\t{}\t{}", v.class, v.universe, v.idx, esc_line(&v.msg));
+        }
+        for (c, n) in self.class_counts.lock().unwrap().iter() {
+            let _ = writeln!(o, "CHILD-CLASS\t{c}\t{n}");
+        }
+        for sm in self.samples.lock().unwrap().iter().take(4) {
+            let _ = writeln!(o, "CHILD-SAMPLE\t{}", esc_line(sm.render().trim_end()));
+        }
+        for (k, v) in self.extra.lock().unwrap().iter() {
+            let _ = writeln!(o, "CHILD-EXTRA\t{k}\t{}", esc_line(v.render().trim_end()));
+        }
+        for m in self.machinery_errors.lock().unwrap().iter() {
+            let _ = writeln!(o, "CHILD-MACHINERY\t{}", esc_line(m));
+        }
+        let _ = writeln!(o, "CHILD-DONE");
+        let _ = o.flush();
+        std::process::exit(0);
+    }
+
+    /// Merge the line-protocol output of a child run; universe names and violation classes get `prefix`.
+    pub fn merge_child(&self, text: &str, prefix: &str) -> bool {
+        let mut done = false;
+        for line in text.lines() {
+            let mut f = line.split('\t');
+            match f.next() {
+                Some("CHILD-COUNTS") => {
+                    let n: Vec<u64> = f.filter_map(|x| x.parse().ok()).collect();
+                    if n.len() == 5 {
+                        self.evals.fetch_add(n[0], Ordering::Relaxed);
+                        self.transitions.fetch_add(n[1], Ordering::Relaxed);
+                        self.states.fetch_add(n[2], Ordering::Relaxed);
+                        self.nontrivial.fetch_add(n[3], Ordering::Relaxed);
+                        self.traces.fetch_add(n[4], Ordering::Relaxed);
+                    }
+                }
+                Some("CHILD-UNIVERSE") => {
+                    let name = f.next().unwrap_or("");
+                    let total = f.next().and_then(|x| x.parse().ok()).unwrap_or(0);
+                    let done_n = f.next().and_then(|x| x.parse().ok()).unwrap_or(0);
+                    let capped = f.next() == Some("true");
+                    let note = unesc_line(f.next().unwrap_or(""));
+                    self.universes.lock().unwrap().push((format!("{prefix}{name}"), UniverseStat { total, done: done_n, capped, note }));
+                }
+                Some("CHILD-VIOLATION") => {
+                    let class = format!("{prefix}{}", f.next().unwrap_or(""));
+                    let universe = format!("{prefix}{}", f.next().unwrap_or(""));
+                    let idx = f.next().and_then(|x| x.parse().ok()).unwrap_or(0);
+                    let msg = unesc_line(f.next().unwrap_or(""));
+                    self.violations.lock().unwrap().push(Violation { class, universe, idx, msg });
+                }
+                Some("CHILD-CLASS") => {
+                    let class = format!("{prefix}{}", f.next().unwrap_or(""));
+                    let n: u64 = f.next().and_then(|x| x.parse().ok()).unwrap_or(0);
+                    self.n_violations.fetch_add(n, Ordering::Relaxed);
+                    *self.class_counts.lock().unwrap().entry(class).or_insert(0) += n;
+                }
+                Some("CHILD-SAMPLE") => self.add_sample(J::s(format!("[{prefix}] {}", unesc_line(f.next().unwrap_or(""))))),
+                Some("CHILD-EXTRA") => {
+                    let k = f.next().unwrap_or("");
+                    self.extra(&format!("{prefix}{k}"), J::s(unesc_line(f.next().unwrap_or(""))));
+                }
+                Some("CHILD-MACHINERY") => self.machinery_error(format!("[{prefix}] {}", unesc_line(f.next().unwrap_or("")))),
+                Some("CHILD-DONE") => done = true,
+                _ => {}
+            }
+        }
+        done
+    }
+
     /// Write evidence, print verdict lines, exit.
     pub fn finish(self) -> ! {
         if self.worker.is_some() {
